@@ -174,6 +174,8 @@ def check(case):
         else:
             hard[side] = 2 ** 14 + 1 if v == (3, 4) else 2 ** 14
     user = {"c": 2 ** 14, "s": 2 ** 14}
+    recs_used = 0       # records written so far in this case (both sides)
+    wire_used = 0       # ... and roughly how many bytes they took
     use_ref = not suite.draft
     rv = RefView(p) if use_ref else None
     fifo = {"c": bytearray(), "s": bytearray()}     # written by side
@@ -218,9 +220,20 @@ def check(case):
             # at most 3000 records per write, so that tiny record sizes with
             # the pure-Python ciphers stay within the per-case CPU budget)
             per = max(1, min(user[side], hard[side]))
-            if n > 3000 * per:
-                n = 3000 * per + n % per
+            # (what one record costs on the wire: a padding callback may
+            # fill every TLS 1.3 record up to the limit)
+            est = per + 32
+            if v == (3, 4) and pad:
+                est = hard[side] if pad[0] == "fill" else per + 32 + (
+                    pad[1] if len(pad) > 1 else 0)
+            room = max(1, min(3000, 4000 - recs_used,
+                              (1500000 - wire_used) // est))
+            if n > room * per:
+                n = room * per + (n % per if room > 1 else 0)
                 labels.append("write-capped")
+            k_recs = -(-n // per) if n else 1
+            recs_used += k_recs
+            wire_used += k_recs * est
             data = prg(b"C01/%d/%d" % (case.get("salt", 0), i), n)
             fill = case.get("fill")
             if fill == "zeros":
